@@ -65,6 +65,7 @@ def run(ctx: Ctx, rep: Report) -> None:
     rep.rule("C18-R1", "everything the override step may write on the client is saved before and restored in a finally covering the yield", floor=3)
     rep.rule("C18-R2", "configure validates its settings before the first store to self and cannot fail after one", floor=1)
     rep.rule("C18-R3", "settings reach the sender and the message layer through attribute reads at send time", floor=5)
+    rep.rule("C18-R7", "the retries value in force reaches the UDP sender and is honoured exactly: that many attempts, none more (shared with C13-R2)", floor=7)
     rep.rule("C18-R6", "the context engine id and name given to the message-processing model reach the scoped PDU of the request (shared with C05-R4)", floor=1)
     rep.rule("C18-R5", "requests issued inside an override block leave nothing behind: every store to state shared between requests is a justified, request-independent instance (shared with C14-R1)", floor=6)
     rep.rule("C18-R4", "a change of credential family installs the MPM of the new credentials", floor=3)
@@ -411,6 +412,8 @@ def run(ctx: Ctx, rep: Report) -> None:
         ok = cls.name in want and ident == want[cls.name] and ident in plugin_ids and ident in rfc.VERSION_BY_MPM
         rep.check(ok if cls.name in want else None, "C18-R4", f"{cls.module.path}:{cls.node.lineno} ({cls.name})", f"{cls.name} credentials select message-processing model {want.get(cls.name)} (RFC 3411) which exists as a plug-in", f"mpm = {ident}; plug-ins: {sorted(i for i in plugin_ids if i is not None)}", key=f"credentials|{cls.name}|mpm-id")
     rep.adopt_rules(ctx.sub_run("c14", rep), "C18-R5", ["C14-R1"])
+    # a retries / timeout override means what it says at the sender: exactly that many datagrams, then Timeout
+    rep.adopt_rules(ctx.sub_run("c13", rep), "C18-R7", ["C13-R2"])
     # the (possibly overridden) context handed to the message-processing model is what the scoped PDU carries
     rep.adopt_rules(ctx.sub_run("c05", rep), "C18-R6", ["C05-R4"], containing="scoped PDU")
 
